@@ -9,6 +9,9 @@ import (
 	"errors"
 	"fmt"
 	"reflect"
+	"runtime"
+	"runtime/debug"
+	"sort"
 	"strings"
 
 	mocker "github.com/tencent/goom"
@@ -24,6 +27,9 @@ type varSpec struct {
 	apply  interface{} // func() T returning v[2]
 	byName bool        // by-name addressing is defined for this type (value type == variable type)
 }
+
+// heapVars: the original is a heap object referenced only by the variable; GC is in their alphabet
+var heapVars = map[string]bool{"vHeapMap": true, "vHeapPtr": true, "vHeapSlice": true, "vHeapIface": true}
 
 var errA, errB, errC = errors.New("a"), errors.New("b"), errors.New("c")
 
@@ -47,7 +53,52 @@ func specs() []varSpec {
 		{"vNilPtr", vars.PNilPtr(), vars.GNilPtr, [3]interface{}{p1, p2, p3}, func() *vars.S { return p3 }, true},
 		{"vNilMap", vars.PNilMap(), vars.GNilMap, [3]interface{}{m1, m2, m3}, func() map[string]int { return m3 }, true},
 		{"vU8", vars.PU8(), vars.GU8, [3]interface{}{uint8(1), uint8(255), uint8(0)}, func() uint8 { return 0 }, true},
+		{"vHeapMap", vars.PHeapMap(), vars.GHeapMap, [3]interface{}{m1, m2, m3}, func() map[string]int { return m3 }, true},
+		{"vHeapPtr", vars.PHeapPtr(), vars.GHeapPtr, [3]interface{}{p1, p2, p3}, func() *vars.S { return p3 }, true},
+		{"vHeapSlice", vars.PHeapSlice(), vars.GHeapSlice, [3]interface{}{[]int{1}, []int{2, 2}, []int(nil)}, func() []int { return nil }, true},
+		{"vHeapIface", vars.PHeapIface(), vars.GHeapIface, [3]interface{}{1, "two", 3.5}, func() interface{} { return 3.5 }, false},
 	}
+}
+
+// origRef stands for "the variable's original value" without holding a GC-visible reference to
+// it (only its address and a rendering of its content), so that the harness itself does not keep
+// a heap original alive.
+type origRef struct {
+	addr    uintptr
+	isNil   bool
+	content string
+}
+
+func refOf(v interface{}) origRef {
+	r := origRef{content: content(v)}
+	if v == nil {
+		r.isNil = true
+		return r
+	}
+	rv := reflect.ValueOf(v)
+	switch rv.Kind() {
+	case reflect.Map, reflect.Ptr, reflect.Slice, reflect.Func, reflect.Chan, reflect.UnsafePointer:
+		r.addr = rv.Pointer()
+	}
+	return r
+}
+
+// isOrig tells whether v is the original: same object (address) with intact content.
+func (r origRef) isOrig(v interface{}) (bool, string) {
+	if r.isNil {
+		return v == nil, "<nil>"
+	}
+	if v == nil {
+		return false, "<nil>"
+	}
+	g := refOf(v)
+	if g.addr != r.addr {
+		return false, "another object: " + g.content
+	}
+	if g.content != r.content {
+		return false, "the original object with content " + g.content + " (originally " + r.content + "; freed while mocked?)"
+	}
+	return true, g.content
 }
 
 // same compares two observed values: identity for funcs, maps, pointers and slices (same
@@ -107,6 +158,7 @@ const (
 	opCancel
 	opReset
 	nOps
+	opGC = 100 // builder-independent; only in the alphabet of heap-original variables
 )
 
 var opNames = []string{"Set1", "Set2", "Apply3", "Lookup", "Cancel", "Reset"}
@@ -118,9 +170,17 @@ type Case struct {
 	Ops    []string `json:"ops"` // "b0.Set1" …
 }
 
-func opString(op int) string { return fmt.Sprintf("b%d.%s", op/nOps, opNames[op%nOps]) }
+func opString(op int) string {
+	if op == opGC {
+		return "GC"
+	}
+	return fmt.Sprintf("b%d.%s", op/nOps, opNames[op%nOps])
+}
 
 func parseOp(s string) int {
+	if s == "GC" {
+		return opGC
+	}
 	var b int
 	var n string
 	if _, err := fmt.Sscanf(strings.Replace(s, ".", " ", 1), "b%d %s", &b, &n); err != nil {
@@ -145,9 +205,35 @@ type builderModel struct {
 // run replays the history on the real library and the model; returns a failure description
 // ("" = conforms) and whether the outcome was judged.
 func run(sp *varSpec, byName bool, ops []int) (fail string, judged bool) {
-	orig := sp.read()
-	restore := func() { reflect.ValueOf(sp.ptr).Elem().Set(origValue(sp, orig)) }
-	defer restore()
+	heap := heapVars[sp.name]
+	if heap {
+		vars.ResetHeap()
+	}
+	var orig interface{} = sp.read()
+	origContent := content(orig)
+	oref := refOf(orig)
+	if heap {
+		orig = oref // from here on only the address and the content rendering are kept
+		defer vars.ResetHeap()
+	} else {
+		keep := orig
+		defer func() { reflect.ValueOf(sp.ptr).Elem().Set(origValue(sp, keep)) }()
+	}
+	// eq compares an observed value with an expected one; the expected value may be the original
+	eq := func(got, want interface{}) (bool, string) {
+		if r, ok := want.(origRef); ok {
+			return r.isOrig(got)
+		}
+		return same(got, want), render(got)
+	}
+	show := func(want interface{}) string {
+		if r, ok := want.(origRef); ok {
+			return "the original (" + r.content + ")"
+		}
+		return render(want)
+	}
+	isO := func(v interface{}) bool { _, ok := v.(origRef); return ok }
+	_ = origContent
 
 	path := "verifh/targets/vars." + sp.name
 	var b [2]*mocker.Builder
@@ -167,6 +253,15 @@ func run(sp *varSpec, byName bool, ops []int) (fail string, judged bool) {
 	curLit := orig   // literal reading ("before its first mock in that builder")
 	judged = true
 	for step, op := range ops {
+		if op == opGC {
+			forceGC()
+			if isO(cur) {
+				if ok, how := eq(sp.read(), cur); !ok {
+					return fmt.Sprintf("after step %d GC the variable no longer holds its original: %s", step, how), true
+				}
+			}
+			continue
+		}
 		bi, o := op/nOps, op%nOps
 		msg, panicked := vk.Try(func() {
 			if h[bi] == nil || (h[bi].Canceled() && o != opCancel) {
@@ -210,18 +305,19 @@ func run(sp *varSpec, byName bool, ops []int) (fail string, judged bool) {
 				curLit = m[bi].first
 			}
 		}
-		if !same(cur, curLit) {
+		if !(isO(cur) && isO(curLit)) && (isO(cur) != isO(curLit) || !same(cur, curLit)) {
 			// the two readings of "its first mock in that builder" disagree from here on: unjudged
 			return "", false
 		}
 		got := sp.read()
-		if !same(got, cur) {
-			return fmt.Sprintf("after step %d %s the variable reads %s, expected %s", step, opString(op), render(got), render(cur)), true
+		if ok, how := eq(got, cur); !ok {
+			return fmt.Sprintf("after step %d %s the variable reads %s, expected %s", step, opString(op), how, show(cur)), true
 		}
 		direct := reflect.ValueOf(sp.ptr).Elem().Interface()
-		if !same(direct, cur) {
-			return fmt.Sprintf("after step %d %s a direct read gives %s, expected %s", step, opString(op), render(direct), render(cur)), true
+		if ok, how := eq(direct, cur); !ok {
+			return fmt.Sprintf("after step %d %s a direct read gives %s, expected %s", step, opString(op), how, show(cur)), true
 		}
+		got, direct = nil, nil
 	}
 	return "", judged
 }
@@ -301,6 +397,9 @@ func Run(c *vk.Ctx) {
 					c.Res.Evaluations++
 					c.Res.Traces++
 					c.Res.Transitions += int64(len(prefix))
+					if heapVars[sp.name] {
+						c.Note(fmt.Sprintf(`{"__key":"var=%s by_name=%v ops=%s","var":%q,"by_name":%v,"ops":["%s"]}`, sp.name, byName, strings.Join(opsToStrings(prefix), ","), sp.name, byName, strings.Join(opsToStrings(prefix), `","`)))
+					}
 					f, judged := run(sp, byName, prefix)
 					if !judged {
 						c.Res.Unjudged++
@@ -308,7 +407,7 @@ func Run(c *vk.Ctx) {
 					cs := Case{sp.name, byName, opsToStrings(prefix)}
 					mocked := false
 					for _, o := range prefix {
-						if o%nOps <= opApply3 {
+						if o != opGC && o%nOps <= opApply3 {
 							mocked = true
 						}
 					}
@@ -333,6 +432,9 @@ func Run(c *vk.Ctx) {
 				for o := 0; o < alpha; o++ {
 					rec(append(prefix[:len(prefix):len(prefix)], o))
 				}
+				if heapVars[sp.name] && len(prefix) > 0 && !hasGC(prefix) {
+					rec(append(prefix[:len(prefix):len(prefix)], opGC))
+				}
 			}
 			rec(nil)
 		}
@@ -350,4 +452,59 @@ func orOK(s string) string {
 		return "conforms"
 	}
 	return s
+}
+
+func hasGC(ops []int) bool {
+	for _, o := range ops {
+		if o == opGC {
+			return true
+		}
+	}
+	return false
+}
+
+var gcSink [][]byte
+
+// forceGC collects and churns the heap so that freed objects are clobbered / reused.
+func forceGC() {
+	runtime.GC()
+	for j := 0; j < 48; j++ {
+		gcSink = append(gcSink, make([]byte, 32+j*16))
+	}
+	gcSink = nil
+	runtime.GC()
+}
+
+// content renders the object a value refers to (deep, without addresses).
+func content(v interface{}) (out string) {
+	if v == nil {
+		return "<nil>"
+	}
+	// a dangling original must show up as a violation, not kill the worker
+	old := debug.SetPanicOnFault(true)
+	defer func() {
+		debug.SetPanicOnFault(old)
+		if r := recover(); r != nil {
+			out = fmt.Sprintf("unreadable (%v)", r)
+		}
+	}()
+	rv := reflect.ValueOf(v)
+	switch rv.Kind() {
+	case reflect.Func:
+		return "func"
+	case reflect.Map:
+		keys := rv.MapKeys()
+		parts := make([]string, 0, len(keys))
+		for _, k := range keys {
+			parts = append(parts, fmt.Sprintf("%v=%v", k, rv.MapIndex(k)))
+		}
+		sort.Strings(parts)
+		return fmt.Sprintf("map%v", parts)
+	case reflect.Ptr:
+		if rv.IsNil() {
+			return "nilptr"
+		}
+		return fmt.Sprintf("&%+v", rv.Elem().Interface())
+	}
+	return fmt.Sprintf("%+v", v)
 }
